@@ -242,7 +242,7 @@ _EXTRA = {
     "C04": ["flows.jax.flows:FlowJax.sample_and_log_prob", "flows.torch.flows:ZukoFlow.sample_and_log_prob"],
     "C05": ["samplers.mcmc:Emcee.sample", "samplers.mcmc:MiniPCN.sample"],
     "C08": ["aspire:Aspire.sample_posterior"],
-    "C10": ["samplers.mcmc:Emcee.sample", "samplers.mcmc:MiniPCN.sample"],
+    "C10": ["samplers.mcmc:Emcee.sample", "samplers.mcmc:MiniPCN.sample", "samples:BaseSamples.from_dict", "utils:PoolHandler.__exit__"],
     "C11": ["samples:BaseSamples.from_samples"],
     "C12": ["samplers.smc.base:SMCSampler.build_checkpoint_state"],
     "C13": ["samples:BaseSamples.__setstate__", "transforms:CompositeTransform.__init__"],
